@@ -94,19 +94,35 @@ def _check_topsort(c, net, col):
 
 
 def _check_traverse(c, net, mode, inverse, starts, topsort_unvisited, col):
+    # hooks receive the state mapping: reading the state of ANY gate from it (also of gates not reached yet) must
+    # not influence the traversal — run once with plain recording hooks and once with hooks that read every state
+    _check_traverse1(c, net, mode, inverse, starts, topsort_unvisited, col, False)
+    _check_traverse1(c, net, mode, inverse, starts, topsort_unvisited, col, True)
+
+
+def _check_traverse1(c, net, mode, inverse, starts, topsort_unvisited, col, reading):
     base = ''
     feats = _features(net, starts)
+    if reading:
+        feats.add('hooks-read-states')
+    labels = list(net.gates)
+
+    def peek(st):
+        if reading:
+            for l in labels:
+                st[l]
     if inverse:
         feats.add('inverse')
     size = len(net.gates) * 10 + (len(starts) if starts is not None else 0)
     events = []
     unv = []
     kw = dict(inverse=inverse,
-              on_enter_hook=lambda g, st: events.append(('enter', g.label)),
-              unvisited_hook=lambda g, st: unv.append(g.label),
+              on_enter_hook=lambda g, st: (peek(st), events.append(('enter', g.label))),
+              on_discover_hook=lambda g, st: peek(st),
+              unvisited_hook=lambda g, st: (peek(st), unv.append(g.label)),
               topsort_unvisited=topsort_unvisited)
     if mode == 'dfs':
-        kw['on_exit_hook'] = lambda g, st: events.append(('exit', g.label))
+        kw['on_exit_hook'] = lambda g, st: (peek(st), events.append(('exit', g.label)))
     rp = {'kind': 'bounded', 'netlist': net.to_json(),
           'call': f'{mode}({starts!r}, inverse={inverse}, topsort_unvisited={topsort_unvisited}, recording hooks)'}
     try:
